@@ -195,8 +195,8 @@ def monitors(chk, case, obs):
 
 def replay_obj(case):
     return {'flags': case['flags'], 'rpt': case['rpt'], 'outcome': case['outcome'], 'rx': RX, 'tx': TX,
-            'items': [{'b': it['b'], 'now': it['now'], 'crc_ok': True, 'dwell': it.get('dwell', 0)}
-                      for it in case['items']]}
+            'items': [{'b': it['b'], 'now': it['now'], 'crc_ok': True, 'dwell': it.get('dwell', 0),
+                       'params': it.get('params', {})} for it in case['items']]}
 
 
 def run_cases(chk, cases):
